@@ -1,7 +1,7 @@
 //! The `list` core library module
 
 use super::{
-    iterator::collect_pair,
+    iterator::{collect_pair, reserved_capacity},
     value_sort::{sort_by_key, sort_values},
 };
 use crate::prelude::*;
@@ -78,7 +78,7 @@ pub fn make_module() -> KMap {
 
                 // Collect the values before borrowing the list,
                 // the iterator might be reading from the list that's being extended.
-                let (size_hint, _) = iterator.size_hint();
+                let size_hint = reserved_capacity(&iterator);
                 let mut values = Vec::with_capacity(size_hint);
                 for value in iterator.map(collect_pair) {
                     match value {
